@@ -35,7 +35,7 @@ def conditions(tier, seed):
                             case_split=['ci (permutation, partition)'], realised=['model text']))
         else:
             ns = 1024 if tier == 'quick' else 64
-            picks = [(seed * 7 + k * 341) % ns for k in range(3)] if tier == 'quick' else list(range(ns))
+            picks = [(seed * 7 + k * 341) % ns for k in range(3)] if tier == 'quick' else [(seed * 5 + k * 4) % ns for k in range(16)]
             for sh in picks:
                 out.append(Cond('order_%s_perms_s%d' % (model, sh), 'c03_order.py',
                                 dict(model=model, route='input', perms='all', shard=sh, nshards=ns), timeout=t,
